@@ -296,12 +296,30 @@ def rerun_sequence(seq):
 
   body.__name__ = 'mphase'
   ph = h.measures(ma, mb)(h.PhaseOptions(name='mphase')(body))
-  pre = progs.make_phase('pre', {'ret': ['ok'], 'diag': ['A']}, progs.RunCtx())
-  n_validators = (len(ma.validators), len(mb.validators))
+  dl, R = L['dl'], L['R']
+
+  def pre_diag(phase_record):
+    return dl.Diagnosis(R.A, 'issued in this run') if cur['diag'] else None
+
+  def pre_body(test):
+    pass
+
+  pre_body.__name__ = 'pre'
+  pre = h.diagnose(dl.PhaseDiagnoser(R, name='pre_diag')(pre_diag))(h.PhaseOptions(name='pre')(pre_body))
+  # ONE Test object executed again and again (a station testing DUT after DUT): whether result A is issued is
+  # decided per run by the first phase's diagnoser
+  test = h.Test(pre, ph)
+  cap = htf.Capture()
+  test.add_output_callbacks(cap)
+  declared = [m for p in test.descriptor.phase_sequence.all_phases() for m in p.measurements]
+  n_validators = (len(ma.validators), len(mb.validators), tuple(len(m.validators) for m in declared))
   bad = []
   for k, (diag_present, value) in enumerate(seq):
     cur['v'] = value
-    res, recs, test, terr = htf.run_test([pre, ph] if diag_present else [ph])
+    cur['diag'] = diag_present
+    del cap.records[:]
+    test.execute()
+    recs = list(cap.records)
     prec = [p for p in recs[0].phases if p.name == 'mphase'][0]
     exp = run_ref(('S6', 'S1'), [['set', 'ma', value], ['set', 'mb', value]], diag_present, True)
     for name in ('ma', 'mb'):
@@ -313,9 +331,10 @@ def rerun_sequence(seq):
                     % (k, 'issued' if diag_present else 'absent', value, name, g, e)))
     if prec.outcome.name != exp['phase_outcome']:
       bad.append(('rerun-phase-outcome', 'run %d: phase outcome %s, reference %s' % (k, prec.outcome.name, exp['phase_outcome'])))
-    if (len(ma.validators), len(mb.validators)) != n_validators or (ma.outcome.name, mb.outcome.name) != ('UNSET', 'UNSET'):
-      bad.append(('declaration-mutated', 'after run %d the declared measurements changed: validators %r -> %r, outcomes %r'
-                  % (k, n_validators, (len(ma.validators), len(mb.validators)), (ma.outcome.name, mb.outcome.name))))
+    now = (len(ma.validators), len(mb.validators), tuple(len(m.validators) for m in declared))
+    if now != n_validators or any(m.outcome.name != 'UNSET' for m in [ma, mb] + declared):
+      bad.append(('declaration-mutated', 'after run %d the declared measurements changed: validator counts %r -> %r, outcomes %r'
+                  % (k, n_validators, now, [m.outcome.name for m in [ma, mb] + declared])))
   return bad
 
 
